@@ -18,8 +18,7 @@ RULE = ("case = random family + type from the schema-supported grammar (no re.Pa
         "options (by alias where aliases exist), passed through json.dumps/json.loads and validated with "
         "jsonschema.Draft202012Validator against build_json_schema(T) for the four (dialect, all_refs) combinations "
         "(OpenAPI references rewritten onto the document's own definitions). Structural monitors: 'required' equals the "
-        "fields without default / factory; with all_refs the definitions are in bijection with the distinct dataclass "
-        "objects reachable from T. distinct_nontrivial = distinct (type shape, schema variant, value repr) triples.")
+        "fields without default / factory; distinct classes sharing one definition show up as rejected documents (homonym / generic-twice families). distinct_nontrivial = distinct (type shape, schema variant, value repr) triples.")
 ASSUMPTIONS = ["format assertions are off (the validator checks structure, enum/const, types, bounds)",
                "the jsonschema package is the trusted Draft 2020-12 validator"]
 BUDGET_S = {"quick": 180, "thorough": 1500}
@@ -149,13 +148,6 @@ def run_case(seed, tier, rec, st):
                 if got_required is not None and sorted(got_required) != sorted(exp_required):
                     rec.violation("required-differs-from-fields-without-default", {"type": tsrc, "variant": vname, "observed": got_required,
                                   "expected": exp_required, "family": fam.to_json()}, facts)
-            if all_refs:
-                defs = sd.get("$defs") or {}
-                if t is not None:
-                    objs = dataclass_objects(fam, t)
-                    names = [c.__name__ for c in objs.values()]
-                    if len(set(names)) == len(names) and set(defs) != set(names) and not (set(names) - set(defs)) == set():
-                        rec.violation("definitions-not-in-bijection-with-dataclasses", {"type": tsrc, "variant": vname, "definitions": sorted(defs), "dataclasses": sorted(names)}, facts)
         if not validators:
             rec.count("no_schema_variant_built")
             return
